@@ -57,7 +57,7 @@ func decodeValue(tm *pgtype.Map, typed *pgtype.Type, format FormatCode, value []
 
 // checkElementCount guards the container codecs which allocate room for all
 // announced elements ahead of reading them. The binary representation of an
-// array or multirange announces its number of elements within its header, a
+// array, record or multirange announces its number of elements within its header, a
 // value of a few bytes announcing billions of elements would make the server
 // allocate gigabytes of memory. Every element takes up at least the four bytes
 // of its own length, a value announcing more elements than it could hold is
@@ -88,6 +88,17 @@ func checkElementCount(codec pgtype.Codec, value []byte) error {
 			if elements > int64(len(value))/4 {
 				return fmt.Errorf("unexpected array dimensions, the announced elements exceed the given value of %d bytes", len(value))
 			}
+		}
+	case pgtype.RecordCodec, *pgtype.RecordCodec:
+		// NOTE: 32-bit number of fields followed by the 32-bit oid and 32-bit
+		// length of each field.
+		if len(value) < 4 {
+			return nil
+		}
+
+		elements = int64(binary.BigEndian.Uint32(value))
+		if elements > int64(len(value))/8 {
+			return fmt.Errorf("unexpected number of record fields, the announced fields exceed the given value of %d bytes", len(value))
 		}
 	case *pgtype.MultirangeCodec:
 		// NOTE: 32-bit number of ranges followed by the ranges.
